@@ -99,6 +99,8 @@ def run(ctx, rep):
     rep.guarded("R05-BUILTIN", lambda: r_builtin(sh, rep))
     rep.rule("R05-COSTVERSION", "an evaluation entry point that is told the Plutus version prices the run with that version's cost model: the cost model handed to Machine::new* depends on the version parameter", floor=2)
     rep.guarded("R05-COSTVERSION", lambda: r_costversion(sh, rep))
+    rep.rule("R05-WORDS", "the two byte-count -> word-count measures, evaluated on 0, 1, 8, 9: a byte string of n bytes weighs max(1, ceil(n / 8)) words, a literal size argument ceil(n / 8) words (0 for 0)", floor=8)
+    rep.guarded("R05-WORDS", lambda: r_words(sh, rep))
     rep.guarded("R05-OWNER", lambda: r_owner(sh, rep))
     rep.guarded("R05-RESULT", lambda: r_result(sh, rep))
     rep.guarded("R05-WIRE", lambda: r_wire(sh, rep))
@@ -727,3 +729,104 @@ def r_costversion(sh, rep):
         rep.check(dep, "R05-COSTVERSION", "%s#cost-model-of-the-given-version" % q.split("::")[-1], sh.loc(AST, c), "%s is given the script's language (`%s`) and builds its machine with `%s`, which does not depend on it: a V1 / V2 script is charged with another version's parameters and costing functions (divideInteger 2^200 3: 221324 cpu instead of 309053)" % (q, v, src[:60]), sample={"cost_model": src[:80]})
     if n < 2:
         raise AnchorMissing("evaluation entry points taking a Language and building a machine (found %d, 3 on the pinned tree)" % n)
+
+
+# ---------------------------------------------------------------------------------------------------------
+# R05-WORDS: the two rounding functions of the size measures, evaluated on a handful of points
+# ---------------------------------------------------------------------------------------------------------
+class _NoEval(Exception):
+    pass
+
+
+def _iev(sh, rel, e, env, fns, depth=0):
+    """integer / boolean value of a pure arithmetic expression; a byte slice is modelled by its length"""
+    k = e.get("k")
+    if k == "Lit" and e.get("lk") == "int":
+        return int(str(e["v"]).replace("_", ""))
+    if k == "Lit" and e.get("lk") == "bool":
+        return e["v"] in (True, "true")
+    if k in ("Paren", "Cast", "Reference", "Try"):
+        return _iev(sh, rel, e["e"], env, fns, depth)
+    if k == "Unary" and e["op"] in ("*", "&"):
+        return _iev(sh, rel, e["e"], env, fns, depth)
+    if k == "Unary" and e["op"] == "!":
+        return not _iev(sh, rel, e["e"], env, fns, depth)
+    if k == "Unary" and e["op"] == "-":
+        return -_iev(sh, rel, e["e"], env, fns, depth)
+    if k == "Path":
+        if e["p"] in env:
+            return env[e["p"]]
+        raise _NoEval("name " + e["p"])
+    if k == "Binary":
+        l, r = _iev(sh, rel, e["l"], env, fns, depth), _iev(sh, rel, e["r"], env, fns, depth)
+        op = e["op"]
+        if op == "/":
+            q = abs(l) // abs(r)
+            return q if (l >= 0) == (r >= 0) else -q  # Rust integer division truncates
+        return {"+": lambda: l + r, "-": lambda: l - r, "*": lambda: l * r, "==": lambda: l == r, "!=": lambda: l != r, "<": lambda: l < r, ">": lambda: l > r, "<=": lambda: l <= r, ">=": lambda: l >= r, "&&": lambda: l and r, "||": lambda: l or r, "%": lambda: abs(l) % abs(r) * (1 if l >= 0 else -1)}[op]()
+    if k == "MethodCall" and not e["args"] and e["m"] in ("len", "is_empty", "clone", "into", "unwrap", "try_into", "abs"):
+        v = _iev(sh, rel, e["recv"], env, fns, depth)
+        return (v == 0) if e["m"] == "is_empty" else abs(v) if e["m"] == "abs" else v
+    if k == "MethodCall" and e["m"] in ("max", "min") and len(e["args"]) == 1:
+        a, b = _iev(sh, rel, e["recv"], env, fns, depth), _iev(sh, rel, e["args"][0], env, fns, depth)
+        return max(a, b) if e["m"] == "max" else min(a, b)
+    if k == "If" and e.get("else") is not None:
+        return _iev(sh, rel, e["then"] if _iev(sh, rel, e["cond"], env, fns, depth) else e["else"], env, fns, depth)
+    if k == "Block":
+        env = dict(env)
+        for st in e["stmts"]:
+            p_ = st.get("pat") if st["k"] == "Local" else None
+            while isinstance(p_, dict) and p_.get("k") != "Ident" and isinstance(p_.get("pat"), dict):
+                p_ = p_["pat"]
+            if st["k"] == "Local" and isinstance(p_, dict) and p_.get("k") == "Ident" and st.get("init") is not None:
+                env[p_["name"]] = _iev(sh, rel, st["init"], env, fns, depth)
+            elif st["k"] == "ExprStmt" and not st.get("semi"):
+                return _iev(sh, rel, st["e"], env, fns, depth)
+            elif st["k"] == "ExprStmt" and st["e"].get("k") == "Return":
+                return _iev(sh, rel, st["e"]["e"], env, fns, depth)
+            else:
+                raise _NoEval("statement " + st["k"])
+        raise _NoEval("block without value")
+    if k == "Call":
+        nm = last(call_name(e) or "")
+        if nm in ("Ok", "Some", "from") and len(e["args"]) == 1:
+            return _iev(sh, rel, e["args"][0], env, fns, depth)
+        g = fns.get(nm)
+        if g is not None and depth < 4:
+            params = [i["pat"]["name"] for i in g["sig"]["inputs"] if isinstance(i.get("pat"), dict) and i["pat"].get("k") == "Ident"]
+            if len(params) == len(e["args"]):
+                return _iev(sh, rel, g["body"], dict(zip(params, [_iev(sh, rel, a, env, fns, depth) for a in e["args"]])), fns, depth + 1)
+        raise _NoEval("call " + nm)
+    raise _NoEval("expression " + str(k))
+
+
+def r_words(sh, rep):
+    VF = "crates/uplc/src/machine/value.rs"
+    fj = sh.file(VF)
+    fns = dict((q.split("::")[-1], f) for q, f in all_fns(fj) if "body" in f)
+    rep.touched(VF, "Value::byte_string_to_ex_mem")
+    rep.touched(VF, "Value::cost_as_size")
+    bs = fns.get("byte_string_to_ex_mem")
+    cs = fns.get("cost_as_size")
+    if bs is None or cs is None:
+        raise AnchorMissing("Value::byte_string_to_ex_mem / Value::cost_as_size")
+    bparam = [i["pat"]["name"] for i in bs["sig"]["inputs"] if isinstance(i.get("pat"), dict) and i["pat"].get("k") == "Ident"][0]
+    # cost_as_size: the part after the range checks — from the statement that brings the size into a machine integer
+    stmts = cs["body"]["stmts"]
+    def pname(p):
+        while isinstance(p, dict) and p.get("k") != "Ident" and isinstance(p.get("pat"), dict):
+            p = p["pat"]
+        return p.get("name") if isinstance(p, dict) and p.get("k") == "Ident" else None
+
+    start = next((i for i, st in enumerate(stmts) if st["k"] == "Local" and st.get("init") is not None and pname(st["pat"]) and "try_from(size)" in sh.nsrc(VF, st["init"])), None)
+    if start is None:
+        raise AnchorMissing("the conversion of the size argument in cost_as_size")
+    var = pname(stmts[start]["pat"])
+    tail = {"k": "Block", "stmts": stmts[start + 1:]}
+    for n, want_bytes, want_lit in ((0, 1, 0), (1, 1, 1), (8, 1, 1), (9, 2, 2), (16, 2, 2), (17, 3, 3)):
+        for what, want, run in (("byte_string_to_ex_mem", want_bytes, lambda: _iev(sh, VF, bs["body"], {bparam: n}, fns)), ("cost_as_size", want_lit, lambda: _iev(sh, VF, tail, {var: n}, fns))):
+            try:
+                got, why = run(), ""
+            except (_NoEval, KeyError, ZeroDivisionError) as e:
+                got, why = None, " (not evaluable: %s)" % e
+            rep.check(got == want, "R05-WORDS", "%s#%d" % (what, n), sh.loc(VF, fns[what]), "%s(%d) evaluates to %s%s; the measure is %d words — %s" % (what, n, got, why, want, "a size *argument* of 0 costs 0 words, only a byte string weighs at least one" if what == "cost_as_size" else "a byte string weighs max(1, ceil(n / 8)) words"), sample={"n": n, "words": got})
